@@ -52,6 +52,36 @@ func (c02Timeout) Temporary() bool { return true }
 
 var c02ErrScripted = errors.New("c02: scripted transport failure")
 
+// c02NetErr is a scripted read failure of a given net.Error class.
+type c02NetErr struct {
+	class              string
+	timeout, temporary bool
+}
+
+func (e *c02NetErr) Error() string   { return "c02: scripted transport failure (" + e.class + ")" }
+func (e *c02NetErr) Timeout() bool   { return e.timeout }
+func (e *c02NetErr) Temporary() bool { return e.temporary }
+
+var c02ErrClasses = []string{"plain", "timeout-permanent", "temporary-not-timeout", "neterror-neither"}
+
+// c02FailErr returns the sticky read error of a class. Only Timeout()&&Temporary() means
+// "try again"; every error here is a permanent failure of the end (a QUIC-style idle
+// timeout is Timeout() && !Temporary(), and every later Read returns it again).
+func c02FailErr(class string) error {
+	switch class {
+	case "timeout-permanent":
+		return &c02NetErr{class: class, timeout: true}
+	case "temporary-not-timeout":
+		return &c02NetErr{class: class, temporary: true}
+	case "neterror-neither":
+		return &c02NetErr{class: class}
+	}
+	return c02ErrScripted
+}
+
+// reads answered after the end has failed for good; beyond this the copy loop is spinning
+const c02SpinLimit = 1000
+
 type c02Conn struct {
 	net.Conn
 	closes       atomic.Int64
@@ -59,6 +89,9 @@ type c02Conn struct {
 	rd, wr       atomic.Int64
 	maxRead      int
 	readFailAt   int64 // -1 = never; the Read that would pass this offset fails
+	readFailErr  error // the (sticky) error of that failure; nil = c02ErrScripted
+	postFail     atomic.Int64 // Reads answered after the failure was first reported
+	spun         atomic.Bool  // more than c02SpinLimit of them: the reader keeps retrying a dead end
 	writeFailAt  int64 // -1 = never
 	timeoutEvery int64 // every k-th Read returns a temporary timeout (0 = never)
 	dataWithErr  bool  // scripted timeouts / read failures are returned together with the bytes of that Read (n>0, err)
@@ -103,8 +136,7 @@ func (c *c02Conn) Read(p []byte) (int, error) {
 	if c.readFailAt >= 0 {
 		rem := c.readFailAt - c.rd.Load()
 		if rem <= 0 {
-			c.faultFired.Store(true)
-			return 0, c02ErrScripted
+			return 0, c.failNow()
 		}
 		if int64(len(p)) > rem {
 			p = p[:rem]
@@ -133,9 +165,8 @@ func (c *c02Conn) Read(p []byte) (int, error) {
 		return n, io.EOF
 	}
 	if n > 0 && c.dataWithErr && c.readFailAt >= 0 && c.rd.Load() >= c.readFailAt {
-		c.faultFired.Store(true)
 		c.dataErrReads.Add(1)
-		return n, c02ErrScripted
+		return n, c.failNow()
 	}
 	if timeoutNow {
 		if n > 0 {
@@ -144,6 +175,23 @@ func (c *c02Conn) Read(p []byte) (int, error) {
 		return n, c02Timeout{}
 	}
 	return n, nil
+}
+
+// failNow reports the scripted permanent read failure. The failure is sticky (every
+// later Read reports it again); a reader that has asked more than c02SpinLimit times
+// after the first report is spinning: that is recorded and the spin is cut by answering
+// with an error of no retryable class.
+func (c *c02Conn) failNow() error {
+	if c.faultFired.Swap(true) {
+		if c.postFail.Add(1) > c02SpinLimit {
+			c.spun.Store(true)
+			return c02ErrScripted
+		}
+	}
+	if c.readFailErr != nil {
+		return c.readFailErr
+	}
+	return c02ErrScripted
 }
 
 func (c *c02Conn) Write(p []byte) (int, error) {
@@ -278,6 +326,7 @@ type c02Cfg struct {
 	At        int64  `json:"script_at"`
 	Closer    string `json:"orderly_closer"`
 	DataErr   bool   `json:"errors_delivered_with_data"`
+	ErrClass  string `json:"read_error_class,omitempty"`
 	SrcT2     string `json:"src2_transport,omitempty"`
 	Yield     bool   `json:"yield"`
 	Seed      uint64 `json:"pattern_seed"`
@@ -425,6 +474,7 @@ func c02Gen(r *rand.Rand, id int, thorough bool) c02Cfg {
 	c.Closer = []string{"src", "tgt"}[r.Intn(2)]
 	c.Yield = r.Intn(4) == 0
 	c.DataErr = r.Intn(2) == 0
+	c.ErrClass = c02ErrClasses[r.Intn(len(c02ErrClasses))]
 	c.SrcT2 = tr()
 	switch k := r.Intn(100); {
 	case k < 36:
@@ -877,6 +927,7 @@ func c02RunCase(run *vk.Run, nw *c02Net, cfg c02Cfg) (out c02Outcome) {
 		trig = &c02Trigger{at: cfg.At, fn: func() { <-attached; induced.Store(true); bridge.Close(); inducedDone.Store(true) }}
 	case "err-read":
 		c02Pick(S, T, cfg.End).srv.readFailAt = cfg.At
+		c02Pick(S, T, cfg.End).srv.readFailErr = c02FailErr(cfg.ErrClass)
 	case "err-write":
 		c02Pick(S, T, cfg.End).srv.writeFailAt = cfg.At
 	case "timeouts":
@@ -1210,6 +1261,20 @@ phaseA:
 	}
 	if trig != nil && trig.fired.Load() && !out.complete {
 		run.Count("early_close_fired", 1)
+	}
+	if cfg.Script == "err-read" {
+		cls := cfg.ErrClass
+		if cls == "" {
+			cls = "plain"
+		}
+		fe := c02Pick(S, T, cfg.End)
+		if fe.srv.spun.Load() {
+			run.Violation("C02:closure|spin-on-failed-end|errclass="+cls, detail(map[string]any{"failed_end": cfg.End, "reads_after_failure": fe.srv.postFail.Load(),
+				"what": "an end failed for good (its Read keeps returning a non-retryable error); the copy loop asked it again more than 1000 times instead of tearing the tunnel down: busy spin, closure is not propagated"}))
+		} else if fe.srv.faultFired.Load() {
+			run.Count("err_read_class_"+cls, 1)
+			run.Max("err_read_max_reads_after_failure", fe.srv.postFail.Load())
+		}
 	}
 	if faultFired() {
 		run.Count("transport_fault_fired", 1)
@@ -1572,6 +1637,27 @@ func c02Directed() []c02Cfg {
 	add(func(c *c02Cfg) { c.Limit = 64 * 1024; c.S2T = 100000; c.T2S = 100000; c.ChunkS = "mid"; c.ChunkT = "big" })
 	add(func(c *c02Cfg) { c.Limit = 1 << 20; c.S2T = 1<<20 + 1; c.T2S = 1500000; c.ChunkS = "big"; c.ChunkT = "big"; c.SrcT = "buf"; c.TgtT = "tcp" })
 	add(func(c *c02Cfg) { c.Limit = 1 << 30; c.S2T = 1500000; c.T2S = 1<<20 + 1; c.ChunkS = "big"; c.ChunkT = "whole"; c.SrcT = "buf"; c.TgtT = "buf" })
+	// an end fails for good with each net.Error class, on either end
+	for i, cls := range c02ErrClasses {
+		cls, i := cls, i
+		add(func(c *c02Cfg) {
+			c.Script = "err-read"
+			c.ErrClass = cls
+			c.End = []string{"src", "tgt"}[i%2]
+			c.S2T, c.T2S = 50000, 50000
+			c.At = 20000
+			c.ChunkS, c.ChunkT = "small", "small"
+			c.DataErr = i%2 == 0
+		})
+		add(func(c *c02Cfg) {
+			c.Script = "err-read"
+			c.ErrClass = cls
+			c.End = []string{"tgt", "src"}[i%2]
+			c.S2T, c.T2S = 3000, 3000
+			c.At = 0
+			c.SrcT, c.TgtT = "buf", "tcp"
+		})
+	}
 	// final bytes delivered together with io.EOF, in either direction
 	add(func(c *c02Cfg) { c.Script = "fin"; c.End = "src"; c.S2T = 10137; c.T2S = 5000; c.ChunkS = "small"; c.MaxReadS = 512 })
 	add(func(c *c02Cfg) { c.Script = "fin"; c.End = "tgt"; c.S2T = 300; c.T2S = 70000; c.ChunkT = "mid"; c.TgtT = "buf" })
@@ -1588,7 +1674,7 @@ func TestVerifC02BytePipe(t *testing.T) {
 	vk.Quiet()
 	run := vk.Start(t, "C02", "bytepipe")
 	defer run.Finish()
-	run.Rule("a real tunnel.Bridge between two harness clients; per case: transports per end {net.Pipe, unbounded in-memory pipe, loopback TCP}, raw conn or real StreamProcessor, bandwidth limit {0, 500..16383 (burst < 32KiB copy buffer), 64KiB/s, 1MiB/s, 1GiB/s}, 0..1.5MiB (thorough 8MiB) per direction simultaneously (sizes of limited cases chosen so a correct transfer needs <= 1.5s, plus a few slow-but-legal cases: 500..4000 B/s with one write of 6-10x the limit, 4-8 s), seeded write chunkings (1B..256KiB / whole), server-side short reads, client read buffers 1B..64KiB, target attached before/after Start/after the source started writing, scripts {none, injected read timeouts (bare or together with data), an end finishing after a complete exchange with its last bytes delivered together with io.EOF, source re-attach on a new connection at a seeded hand-over offset with the old connection left open (then optionally bytes from the new source end, then the target or the new source end closes while the old connection is still open), client close at a seeded offset, server-side read/write failure at a seeded offset (bare or with data), Bridge.Close at a seeded offset}; distinct = (transports, stream, limit class, attach, script, size buckets) of cases that delivered at least one byte")
+	run.Rule("a real tunnel.Bridge between two harness clients; per case: transports per end {net.Pipe, unbounded in-memory pipe, loopback TCP}, raw conn or real StreamProcessor, bandwidth limit {0, 500..16383 (burst < 32KiB copy buffer), 64KiB/s, 1MiB/s, 1GiB/s}, 0..1.5MiB (thorough 8MiB) per direction simultaneously (sizes of limited cases chosen so a correct transfer needs <= 1.5s, plus a few slow-but-legal cases: 500..4000 B/s with one write of 6-10x the limit, 4-8 s), seeded write chunkings (1B..256KiB / whole), server-side short reads, client read buffers 1B..64KiB, target attached before/after Start/after the source started writing, scripts {none, injected read timeouts (bare or together with data), an end finishing after a complete exchange with its last bytes delivered together with io.EOF, source re-attach on a new connection at a seeded hand-over offset with the old connection left open (then optionally bytes from the new source end, then the target or the new source end closes while the old connection is still open), client close at a seeded offset, server-side read/write failure at a seeded offset (bare or with data; the sticky read error is plain, Timeout&&!Temporary, Temporary&&!Timeout or a net.Error that is neither), Bridge.Close at a seeded offset}; distinct = (transports, stream, limit class, attach, script, size buckets) of cases that delivered at least one byte")
 
 	ln, err := net.Listen("tcp", "127.0.0.1:0")
 	if err != nil {
@@ -1722,6 +1808,9 @@ func TestVerifC02BytePipe(t *testing.T) {
 	run.Floor("limited_chunk_gt_burst", 2)
 	run.Floor("early_close_fired", 5)
 	run.Floor("transport_fault_fired", 3)
+	for _, cls := range c02ErrClasses {
+		run.Floor("err_read_class_"+cls, 2)
+	}
 	run.Floor("read_timeouts_injected", 1)
 	run.Floor("reads_returning_data_and_error", 20)
 	run.Floor("fin_with_data_fired", 5)
@@ -1817,6 +1906,7 @@ func TestVerifC02EarlyEnd(t *testing.T) {
 					close(srvS.finGate)
 				default:
 					srvS.readFailAt = int64(c.Bytes)
+					srvS.readFailErr = c02FailErr(c02ErrClasses[int(c.Seed%uint64(len(c02ErrClasses)))])
 				}
 				var ss, ts stream.PackageStreamer
 				if c.Stream {
@@ -1892,6 +1982,16 @@ func TestVerifC02EarlyEnd(t *testing.T) {
 				if srvS.finFired.Load() {
 					run.Count("fin_with_data_fired", 1)
 				}
+				if c.How == "read-error" {
+					cls := c02ErrClasses[int(c.Seed%uint64(len(c02ErrClasses)))]
+					if srvS.spun.Load() {
+						d := det()
+						d["reads_after_failure"] = srvS.postFail.Load()
+						run.Violation("C02:closure|spin-on-failed-end|errclass="+cls, d)
+					} else if srvS.faultFired.Load() {
+						run.Count("err_read_class_"+cls, 1)
+					}
+				}
 				cliS.Close()
 				cliT.Close()
 				b.Close()
@@ -1915,6 +2015,9 @@ func TestVerifC02EarlyEnd(t *testing.T) {
 	run.Floor("all_cases_decided", 1)
 	run.Floor("closure_observed_by_peer", int64(run.Pick(1000, 10000)))
 	run.Floor("fin_with_data_fired", int64(run.Pick(200, 2000)))
+	for _, cls := range c02ErrClasses {
+		run.Floor("err_read_class_"+cls, int64(run.Pick(50, 500)))
+	}
 }
 
 
